@@ -64,6 +64,7 @@ class Sys:
         for e, d in self.states:
             lev[e] = lev.get(e, 0.0) + d
         self.dmaxlevel = max(lev.values())
+        self.lev = dict(sorted(lev.items()))
 
     def count(self, mu, kT):
         return math.fsum(d * fermi((e - mu) / kT) for e, d in self.states)
@@ -93,6 +94,29 @@ class Sys:
 
     def tol_e0(self):
         return 1e-9 + self.u * (1.0 + self.emaxabs) * self.tol_n0()
+
+
+def two_level_mu(S, n, kT):
+    """Closed form of the conserving mu for a spectrum of exactly two levels e1 < e2 with weights D1, D2:
+    with t = exp((e1 - mu)/kT), q = exp((e2 - e1)/kT):  N q t^2 + [N (1 + q) - D1 q - D2] t + (N - D1 - D2) = 0."""
+    if len(S.lev) != 2:
+        return None
+    (e1, d1), (e2, d2) = S.lev.items()
+    x = (e2 - e1) / kT
+    if x > 300.0:
+        # level 2 empty or level 1 full to 1e-130: one partially filled level decides
+        if n < d1:
+            f = n / d1
+            return e1 + kT * math.log(f / (1.0 - f))
+        if n > d1:
+            f = (n - d1) / d2
+            return e2 + kT * math.log(f / (1.0 - f))
+        return 0.5 * (e1 + e2) + 0.5 * kT * math.log(d1 / d2)
+    q = math.exp(x)
+    a, b, c = n * q, n * (1.0 + q) - d1 * q - d2, n - d1 - d2
+    disc = math.sqrt(b * b - 4.0 * a * c)
+    t = (-2.0 * c) / (b + disc) if b > 0 else (-b + disc) / (2.0 * a)
+    return e1 - kT * math.log(t)
 
 
 def run_class(S, n, T):
@@ -171,11 +195,16 @@ def series(S, n, grid, Kb, E0):
             fm = float(efe.free_energy)
             s_ = ts / T
             der = milli((fp - fm) / (2 * h) + s_, 2e-7 + 1e-5 * abs(s_))
+        mu2 = -1
+        mx = None if zero else two_level_mu(S, n, kT)
+        if mx is not None:
+            dn = S.dndmu(mx, kT)
+            mu2 = milli(mu - mx, 2e-9 / dn + 1e-12) if dn > 1e-6 else 0
         out.append(dict(T=T, mu=mu, en=en, ts=ts, fe=fe, inb=inb, tol=te))
         rows.append([bool(inb), cons, den, dts, milli(fe - (en - ts), 1e-12 * (1.0 + abs(en))),
                      milli(float(fes[i]) - fe, 1e-12 * (1.0 + abs(fe))),
                      int(max(-CAP, min(CAP, round(ts / 1e-12)))),
-                     smilli(fe - E0, te), smilli(E0 - en, te), der, 0])
+                     smilli(fe - E0, te), smilli(E0 - en, te), der, 0, mu2])
     for i in range(len(out) - 1):
         rows[i][10] = smilli(out[i + 1]["fe"] - out[i]["fe"], out[i]["tol"] + out[i + 1]["tol"])
     return temps, rows, out
@@ -239,3 +268,61 @@ def _full(cse, S):
         if c == nw:
             return True
     return False
+
+
+class _Vxml:
+    """What phonopy-vasp-efe reads from a parsed vasprun.xml (VASP: fractional k-weights summing to 1)."""
+
+    def __init__(self, S, n, esig0, vol):
+        self.k_weights = S.w.astype(float) / S.W
+        self.eigenvalues = np.stack([S.e, np.ones_like(S.e)], axis=-1)      # (spin, k, band, [eigenvalue, occupation])
+        self.NELECT = n
+        self.energies = np.array([[esig0 + 0.3, esig0 + 0.2, esig0 + 0.1], [esig0 - 0.01, esig0, esig0 + 0.01]])
+        self.volume = [vol * 1.1, vol]
+
+
+def sc_event(eid, gs_pair, u, grid, Kb):
+    """phonopy-vasp-efe's table builder on two 'volumes' (two systems), vasprun.xml parsing replaced by a stand-in.
+    Requirement (the script's own documentation): row(T, V) = energy(sigma->0)(V) - F_el(T=0, V) + F_el(T, V)."""
+    import argparse
+
+    import phonopy.scripts.phonopy_vasp_efe as scr
+    from phonopy.qha.electron import ElectronFreeEnergy
+
+    table, ref = {}, []
+    for j, gs in enumerate(gs_pair):
+        cse = gs[1]
+        S = Sys(cse["sy"], u)
+        n = float(frac(cse["nw"]) / S.W)
+        esig0 = -3.25 - 0.5 * j
+        vol = 20.0 + 2.5 * j
+        table["vasprun-%d.xml" % j] = _Vxml(S, n, esig0, vol)
+        ref.append((S, n, esig0, vol))
+    orig = scr.parse_vasprunxml
+    scr.parse_vasprunxml = lambda fn: table[fn]
+    try:
+        args = argparse.Namespace(tmin=float(grid[0]), tmax=float(grid[1]), tstep=float(grid[2]), filenames=sorted(table))
+        lines_fe, lines_ev = scr.get_fe_ev_lines(args)
+    finally:
+        scr.parse_vasprunxml = orig
+    body = [[float(x) for x in ln.split()] for ln in lines_fe if not ln.lstrip().startswith("#")]
+    head = [float(x) for x in lines_fe[0].split(":")[1].split()]
+    evb = [[float(x) for x in ln.split()] for ln in lines_ev if not ln.lstrip().startswith("#")]
+    temps = [r[0] for r in body]
+    devs = []
+    for r in body:
+        row = []
+        for j, (S, n, esig0, vol) in enumerate(ref):
+            efe = ElectronFreeEnergy(S.e.copy(), S.w.copy(), n)
+            efe.run(0.0)
+            f0 = float(efe.free_energy)
+            efe.run(r[0])
+            want = esig0 - f0 + float(efe.free_energy)
+            row.append(milli(r[1 + j] - want, 5e-9 + 2 * S.tol_e0()) if len(r) == 1 + len(ref) else CAP)
+        devs.append(row)
+    okv = len(head) == len(ref) and len(evb) == len(ref)
+    dvol = max([milli(head[j] - ref[j][3], 1e-7) for j in range(len(ref))] +
+               [max(milli(evb[j][0] - ref[j][3], 1e-7), milli(evb[j][1] - ref[j][2], 1e-7)) for j in range(len(ref))]) if okv else CAP
+    ev = dict(xid=eid, xg=list(grid), xts=[int(round(t * 1000)) for t in temps], rows=devs, dvol=dvol)
+    raw = dict(u=u, grid=list(grid), cases=[g[1] for g in gs_pair], fe_v_dat=lines_fe, e_v_dat=lines_ev)
+    return ev, raw
